@@ -273,7 +273,7 @@ static inline std::string demangle(const char * n)
 // output capture -------------------------------------------------------------------------------
 struct OutFd
 {
-  int fd = -1; off_t off = 0;
+  int fd = -1; off_t off = 0; bool truncated = false;
   void open() { fd = memfd_create("vout", 0); if (fd < 0) { perror("memfd"); exit(3); } }
   void close_() { if (fd >= 0) ::close(fd); fd = -1; }
   std::string take(size_t cap = (1u << 20))
@@ -285,6 +285,7 @@ struct OutFd
       if (n <= 0) break;
       off += n;
       if (out.size() < cap) out.append(buf, (size_t)n);
+      else truncated = true;      // the caller reports it: an output that was cut cannot be compared
     }
     return out;
   }
